@@ -156,7 +156,7 @@ def run_check(cid: str, tier: str, seed: int, jobs: int | None = None) -> int:
     if errors:
         rc = 2 if rc == 0 else rc
         for e in errors[:5]:
-            lines.append(f"HARNESS-ERROR property={cid} {json.dumps(e, default=repr)[:1500]}")
+            lines.append(f"HARNESS-ERROR property={cid} {json.dumps(e, default=repr)[-700:]}")
 
     exhaustive = capped == 0 and not errors
     wall = time.time() - t0
